@@ -221,6 +221,85 @@ theorem successful_reload_applies {C E} (s : Coord C) (c : C) (subsOk : Bool) :
     (s.reload (.ok c : Except E C) subsOk).1.applied.head? = some c := by
   simp [Coord.reload]
 
+/-! ### the reloader: a rejected reload leaves the RUNNING configuration in force -/
+
+theorem runSteps_infallible {C} (steps : List Step) (h : steps.all (fun r => !r.fallible) = true)
+    (c : C) (k : Option Nat) (s : Live C) : (runSteps steps c k s).2 = true := by
+  induction steps generalizing k s with
+  | nil => simp [runSteps]
+  | cons st rest ih =>
+    simp only [List.all_cons, Bool.and_eq_true, Bool.not_eq_true'] at h
+    simp only [runSteps, h.1, Bool.false_eq_true, false_and, if_false]
+    exact ih h.2 _ _
+
+/-- **The order discipline is sufficient, whatever the steps are**: if no step can
+    fail after a step that touched the running instance, a reload that fails —
+    at ANY position — leaves the running instance exactly as it was. -/
+theorem ordered_failed_reload_keeps_running {C} (steps : List Step) (h : safeOrder steps = true)
+    (c : C) (k : Option Nat) (s : Live C) (hf : (runSteps steps c k s).2 = false) :
+    (runSteps steps c k s).1 = s := by
+  induction steps generalizing k s with
+  | nil => simp [runSteps] at hf
+  | cons st rest ih =>
+    unfold runSteps at hf ⊢
+    by_cases hfail : st.fallible ∧ k = some 0
+    · simp [hfail]
+    · simp only [hfail, if_false] at hf ⊢
+      unfold safeOrder at h
+      by_cases he : st.effect = .none
+      · simp only [he, if_true] at h
+        have := ih h _ _ (by simpa [he, Effect.apply] using hf)
+        simpa [he, Effect.apply] using this
+      · simp only [he, if_false] at h
+        rw [runSteps_infallible rest h] at hf
+        cases hf
+
+theorem reloaderSteps_safe : safeOrder reloaderSteps = true := by decide
+
+/-- **failed_reload_keeps_running.**  `Coordinator.Reload` with the reloader of
+    app/reloader.go as subscriber: a reload that reports failure — the file does
+    not load, or ANY step of the reloader fails — leaves the running dispatcher /
+    inhibitor, the configuration served by the API and the helper targets exactly
+    as they were. -/
+theorem failed_reload_keeps_running {C E} (a : AppState C) (load : Except E C) (failAt : Option Nat)
+    (hf : (a.reload reloaderSteps load failAt).2 = false) :
+    (a.reload reloaderSteps load failAt).1.live = a.live := by
+  unfold AppState.reload at hf ⊢
+  cases load with
+  | error e => rfl
+  | ok c =>
+    simp only at hf ⊢
+    exact ordered_failed_reload_keeps_running reloaderSteps reloaderSteps_safe c failAt a.live hf
+
+/-- every fallible position does fail when told to (the theorem above is not vacuous) -/
+theorem reload_fails_at_every_fallible_step {C} (c : C) (s : Live C) (k : Nat) (hk : k < 3) :
+    (runSteps reloaderSteps c (some k) s).2 = false := by
+  match k, hk with
+  | 0, _ => simp [reloaderSteps, runSteps]
+  | 1, _ => simp [reloaderSteps, runSteps]
+  | 2, _ => simp [reloaderSteps, runSteps]
+
+/-- a reload in which nothing fails puts the new configuration in force everywhere -/
+theorem successful_reload_in_force {C} (c : C) (s : Live C) :
+    runSteps reloaderSteps c none s = ({ running := some c, served := some c, aux := some c }, true) := by
+  simp [reloaderSteps, runSteps, Effect.apply]
+
+/-- The order matters: the same steps with the tracing step moved behind the
+    stop of the old components (a seeded change of the reloader). -/
+def tracingAfterStop : List Step :=
+  [ ⟨"templates", true, .none⟩, ⟨"receivers", true, .none⟩,
+    ⟨"eventrecorder", false, .aux⟩, ⟨"stop-inhibitor", false, .stopOld⟩, ⟨"stop-dispatcher", false, .stopOld⟩,
+    ⟨"tracing", true, .aux⟩,
+    ⟨"api-update", false, .publishApi⟩, ⟨"start-inhibitor", false, .startNew⟩, ⟨"start-dispatcher", false, .startNew⟩ ]
+
+theorem tracingAfterStop_unsafe : safeOrder tracingAfterStop = false := by decide
+
+/-- … a tracing failure then reports "reload failed" with nothing routing any more,
+    while the API keeps serving the old configuration -/
+theorem fallible_after_stop_breaks :
+    runSteps tracingAfterStop (2 : Nat) (some 5) { running := some 1, served := some 1, aux := some 1 } =
+      ({ running := none, served := some 1, aux := some 2 }, false) := by decide
+
 /-! ### secrets -/
 
 mutual
